@@ -59,7 +59,8 @@ func main() {
 		os.Exit(props.Aux(os.Args[2:]))
 	case "list":
 		for _, id := range core.AllIDs() {
-			fmt.Println(id)
+			p, _ := core.Lookup(id)
+			fmt.Printf("%s quick=%d thorough=%d\n", id, p.Cases("quick"), p.Cases("thorough"))
 		}
 	default:
 		usage()
